@@ -384,6 +384,9 @@ fn cache_data_case(cx: &mut Cx, dir: &Path) {
     let peers: Vec<PeerId> = (0..npeers).map(|_| peer(&mut cx.rng)).collect();
     let mk = |rng: &mut StdRng| {
         let mut d = base.clone();
+        // one data set in four was stamped in bulk: every address carries the same time, to the nanosecond (a cache file
+        // written by a tool, or merged data): peers that tie on their last-seen time are still peers to be counted
+        let bulk: Option<SystemTime> = if rng.gen_bool(0.25) { Some(SystemTime::now() - Duration::from_millis(rng.gen_range(0..(expiry * 400)))) } else { None };
         for p in &peers {
             if rng.gen_bool(0.3) {
                 continue;
@@ -412,6 +415,9 @@ fn cache_data_case(cx: &mut Cx, dir: &Path) {
                 if rng.gen_bool(0.12) {
                     // expired by a fraction of a second only
                     b.last_seen = SystemTime::now() - Duration::from_secs(expiry) - Duration::from_millis(rng.gen_range(150..850));
+                }
+                if let Some(t) = bulk {
+                    b.last_seen = t;
                 }
                 v.push(b);
             }
